@@ -15,14 +15,15 @@ import (
 	"verifharness/lib/eng"
 )
 
-const nTables = 2
+const nTables = 3
 
 type KV [2]int64
 
 type Stmt struct {
 	S   int    `json:"s"`           // session (0 = observer, inserted by the runner)
-	K   string `json:"k"`           // read ins updall updkey delkey delge begin commit rollback setac bad
+	K   string `json:"k"`           // read ins updall updkey delkey delge delall trunc begin beginro commit rollback setac bad sp createx dropx cridx altcom badddl joinread updjoin inssel deljoin
 	T   int    `json:"t,omitempty"` // table
+	U   int    `json:"u,omitempty"` // second table of a multi-table statement
 	KVs []KV   `json:"kvs,omitempty"`
 	A   int64  `json:"a,omitempty"`
 	B   int64  `json:"b,omitempty"`
@@ -58,10 +59,35 @@ func (q Stmt) sql() string {
 	case "trunc":
 		return "TRUNCATE TABLE " + t
 	case "begin":
-		if q.A == 1 {
+		switch q.A {
+		case 1:
 			return "START TRANSACTION"
+		case 2:
+			return "START TRANSACTION READ WRITE"
 		}
 		return "BEGIN"
+	case "beginro":
+		return "START TRANSACTION READ ONLY"
+	case "sp":
+		return []string{"SAVEPOINT sp1", "ROLLBACK TO SAVEPOINT sp1", "RELEASE SAVEPOINT sp1", "ROLLBACK TO sp1"}[q.A]
+	case "createx":
+		return fmt.Sprintf("CREATE TABLE x%d (a INT)", q.A)
+	case "dropx":
+		return fmt.Sprintf("DROP TABLE x%d", q.A)
+	case "cridx":
+		return fmt.Sprintf("CREATE INDEX i%d ON %s (v)", q.A, t)
+	case "altcom":
+		return fmt.Sprintf("ALTER TABLE %s COMMENT = 'c%d'", t, q.A)
+	case "badddl":
+		return "DROP TABLE no_such_table"
+	case "joinread":
+		return fmt.Sprintf("SELECT x.k, x.v + y.v FROM %s x JOIN t%d y ON x.k = y.k ORDER BY x.k", t, q.U)
+	case "updjoin":
+		return fmt.Sprintf("UPDATE %s JOIN t%d ON %s.k = t%d.k SET %s.v = %s.v + %d, t%d.v = t%d.v + %d", t, q.U, t, q.U, t, t, q.A, q.U, q.U, q.B)
+	case "inssel":
+		return fmt.Sprintf("INSERT INTO %s SELECT k + %d, v FROM t%d", t, q.A, q.U)
+	case "deljoin":
+		return fmt.Sprintf("DELETE %s, t%d FROM %s JOIN t%d ON %s.k = t%d.k WHERE %s.k >= %d", t, q.U, t, q.U, t, q.U, t, q.A)
 	case "commit":
 		return "COMMIT"
 	case "rollback":
@@ -74,9 +100,33 @@ func (q Stmt) sql() string {
 	panic("bad stmt kind " + q.K)
 }
 
+// a statement that writes rows of one table
 func (q Stmt) isWrite() bool {
 	switch q.K {
 	case "ins", "updall", "updkey", "delkey", "delge", "delall", "trunc":
+		return true
+	}
+	return false
+}
+
+// a statement over two tables
+func (q Stmt) isMulti() bool {
+	switch q.K {
+	case "joinread", "updjoin", "inssel", "deljoin":
+		return true
+	}
+	return false
+}
+
+// DML that a READ ONLY transaction must reject (TRUNCATE and the other DDL are C42's business)
+func (q Stmt) isDML() bool {
+	return (q.isWrite() && q.K != "trunc") || (q.isMulti() && q.K != "joinread")
+}
+
+// statements with an implicit commit
+func (q Stmt) isDDL() bool {
+	switch q.K {
+	case "trunc", "createx", "dropx", "cridx", "altcom":
 		return true
 	}
 	return false
@@ -114,6 +164,24 @@ func (q Stmt) coq() string {
 		return "QTrunc " + t
 	case "begin":
 		return "QBegin"
+	case "beginro":
+		return "QBeginRO"
+	case "sp":
+		return "QSp"
+	case "createx", "dropx":
+		return "QDdl []"
+	case "cridx", "altcom":
+		return "QDdl [" + t + "]"
+	case "badddl":
+		return "QBad"
+	case "joinread":
+		return fmt.Sprintf("QJoinRead %s %d", t, q.U)
+	case "updjoin":
+		return fmt.Sprintf("QUpdJoin %s %d %s %s", t, q.U, coqZ(q.A), coqZ(q.B))
+	case "inssel":
+		return fmt.Sprintf("QInsSel %s %d %s", t, q.U, coqZ(q.A))
+	case "deljoin":
+		return fmt.Sprintf("QDelJoin %s %d %s", t, q.U, coqZ(q.A))
 	case "commit":
 		return "QCommit"
 	case "rollback":
@@ -166,6 +234,63 @@ func applyRef(q Stmt, d []KV) ([]KV, bool) {
 	return out, true
 }
 
+func hasKey(d []KV, k int64) bool {
+	for _, x := range d {
+		if x[0] == k {
+			return true
+		}
+	}
+	return false
+}
+
+// reference semantics of the two-table statements: rows returned (joinread) or new contents of both tables and success
+func applyMultiRef(q Stmt, a, b []KV) (rows, na, nb []KV, ok bool) {
+	na, nb, ok = cloneKVs(a), cloneKVs(b), true
+	switch q.K {
+	case "joinread":
+		rows = []KV{}
+		for _, x := range a {
+			for _, y := range b {
+				if x[0] == y[0] {
+					rows = append(rows, KV{x[0], x[1] + y[1]})
+				}
+			}
+		}
+	case "updjoin":
+		for i := range na {
+			if hasKey(b, na[i][0]) {
+				na[i][1] += q.A
+			}
+		}
+		for i := range nb {
+			if hasKey(a, nb[i][0]) {
+				nb[i][1] += q.B
+			}
+		}
+	case "inssel":
+		for _, y := range b {
+			if hasKey(na, y[0]+q.A) {
+				return nil, a, b, false
+			}
+			na = append(na, KV{y[0] + q.A, y[1]})
+		}
+		sort.Slice(na, func(i, j int) bool { return na[i][0] < na[j][0] })
+	case "deljoin":
+		na, nb = []KV{}, []KV{}
+		for _, x := range a {
+			if !(x[0] >= q.A && hasKey(b, x[0])) {
+				na = append(na, x)
+			}
+		}
+		for _, y := range b {
+			if !(y[0] >= q.A && hasKey(a, y[0])) {
+				nb = append(nb, y)
+			}
+		}
+	}
+	return
+}
+
 func eqKVs(a, b []KV) bool {
 	if len(a) != len(b) {
 		return false
@@ -180,11 +305,34 @@ func eqKVs(a, b []KV) bool {
 
 // ---- generator ----
 
-func genWrite(r *lib.RNG, s int) Stmt {
+// names of side tables / indexes / comments are numbered per case
+type genT struct {
+	r     *lib.RNG
+	next  int64
+	sides []int64 // side tables that exist
+}
+
+func (g *genT) two() (int, int) {
+	a := g.r.Intn(nTables)
+	b := (a + 1 + g.r.Intn(nTables-1)) % nTables
+	return a, b
+}
+
+func (g *genT) write(s int) Stmt {
+	r := g.r
 	q := Stmt{S: s, T: r.Intn(nTables)}
-	switch r.Intn(9) {
+	switch r.Intn(12) {
 	case 8:
 		q.K = "delall"
+	case 9:
+		q.T, q.U = g.two()
+		q.K, q.A, q.B = "updjoin", int64(r.Range(1, 9)), int64(r.Range(10, 19))
+	case 10:
+		q.T, q.U = g.two()
+		q.K, q.A = "inssel", int64(lib.Pick(r, []int{0, 3, 6, 10}))
+	case 11:
+		q.T, q.U = g.two()
+		q.K, q.A = "deljoin", int64(r.Range(1, 6))
 	case 0, 1, 2:
 		q.K = "ins"
 		n := 1
@@ -206,15 +354,48 @@ func genWrite(r *lib.RNG, s int) Stmt {
 	return q
 }
 
-func genRW(r *lib.RNG, s int) Stmt {
-	if r.Chance(1, 3) {
+func (g *genT) rw(s int) Stmt {
+	r := g.r
+	switch {
+	case r.Chance(1, 4):
 		return Stmt{S: s, K: "read", T: r.Intn(nTables)}
+	case r.Chance(1, 8):
+		a, b := g.two()
+		return Stmt{S: s, K: "joinread", T: a, U: b}
+	case r.Chance(1, 14):
+		return Stmt{S: s, K: "sp", A: int64(r.Intn(4))}
 	}
-	return genWrite(r, s)
+	return g.write(s)
+}
+
+// a successful DDL statement with an implicit commit; DROP TABLE only where no other session can hold the table
+func (g *genT) ddl(s int, allowDrop bool) Stmt {
+	r := g.r
+	g.next++
+	switch x := r.Intn(5); {
+	case x == 0 && allowDrop && len(g.sides) > 0:
+		i := r.Intn(len(g.sides))
+		n := g.sides[i]
+		g.sides = append(g.sides[:i], g.sides[i+1:]...)
+		return Stmt{S: s, K: "dropx", A: n}
+	case x <= 1:
+		g.sides = append(g.sides, g.next)
+		return Stmt{S: s, K: "createx", A: g.next}
+	case x == 2:
+		return Stmt{S: s, K: "cridx", T: r.Intn(nTables), A: g.next}
+	case x == 3:
+		return Stmt{S: s, K: "altcom", T: r.Intn(nTables), A: g.next}
+	}
+	return Stmt{S: s, K: "trunc", T: r.Intn(nTables)}
+}
+
+func (g *genT) end(s int) Stmt {
+	return Stmt{S: s, K: lib.Pick(g.r, []string{"commit", "commit", "rollback"})}
 }
 
 func gen(r *lib.RNG) caseT {
 	var c caseT
+	g := &genT{r: r}
 	for t := 0; t < nTables; t++ {
 		var d []KV
 		for k := 1; k <= 6; k++ {
@@ -228,57 +409,95 @@ func gen(r *lib.RNG) caseT {
 		c.Init = append(c.Init, d)
 	}
 	ns := r.Range(2, 3)
+	add := func(qs ...Stmt) { c.H = append(c.H, qs...) }
 	if r.Chance(2, 5) {
 		// non-overlapping: a sequence of blocks
 		c.Serial = true
 		nb := r.Range(3, 8)
 		for i := 0; i < nb; i++ {
 			s := r.Range(1, ns)
-			switch r.Intn(7) {
+			switch r.Intn(10) {
 			case 0, 1:
-				c.H = append(c.H, genRW(r, s))
+				add(g.rw(s))
 			case 2:
-				if r.Chance(1, 2) {
-					c.H = append(c.H, Stmt{S: s, K: "bad"})
-					break
-				}
-				// an autocommit-off block; sometimes an explicit BEGIN inside it, with no COMMIT in between: the BEGIN
-				// commits the pending work and a later ROLLBACK must not discard it
-				c.H = append(c.H, Stmt{S: s, K: "setac", A: 0})
-				for j, n := 0, r.Range(0, 3); j < n; j++ {
-					c.H = append(c.H, genRW(r, s))
-				}
-				if r.Chance(1, 2) {
-					c.H = append(c.H, genWrite(r, s))
-					c.H = append(c.H, Stmt{S: s, K: "begin", A: int64(r.Intn(2))})
+				switch r.Intn(3) {
+				case 0:
+					add(Stmt{S: s, K: lib.Pick(r, []string{"bad", "badddl"})})
+				case 1:
+					add(g.ddl(s, true)) // DDL of an autocommit session
+				default:
+					// an explicit BEGIN inside an autocommit-off block, with no COMMIT in between: the BEGIN commits the pending
+					// work and a later ROLLBACK must not discard it
+					add(Stmt{S: s, K: "setac", A: 0}, g.write(s), Stmt{S: s, K: "begin", A: int64(r.Intn(3))})
 					for j, n := 0, r.Range(0, 2); j < n; j++ {
-						c.H = append(c.H, genRW(r, s))
+						add(g.rw(s))
 					}
+					add(g.end(s), Stmt{S: s, K: "setac", A: 1})
 				}
-				c.H = append(c.H, Stmt{S: s, K: lib.Pick(r, []string{"commit", "rollback", "rollback"})})
-				c.H = append(c.H, Stmt{S: s, K: "setac", A: 1})
 			case 3:
+				// an autocommit-off block: SET autocommit = 0; body; [DDL]; COMMIT | ROLLBACK | nothing; SET autocommit = 1
+				add(Stmt{S: s, K: "setac", A: 0})
+				for j, n := 0, r.Range(0, 4); j < n; j++ {
+					add(g.rw(s))
+				}
+				if r.Chance(1, 4) {
+					add(g.ddl(s, true))
+				}
+				if r.Chance(3, 4) {
+					add(g.end(s))
+				}
+				add(Stmt{S: s, K: "setac", A: 1})
+			case 4:
 				// a transaction (or an autocommit statement) whose only write to the table is DELETE FROM t / TRUNCATE
 				t := r.Intn(nTables)
 				switch r.Intn(4) {
 				case 0:
-					c.H = append(c.H, Stmt{S: s, K: "delall", T: t})
+					add(Stmt{S: s, K: "delall", T: t})
 				case 1:
-					c.H = append(c.H, Stmt{S: s, K: "trunc", T: t})
+					add(Stmt{S: s, K: "trunc", T: t})
 				case 2:
-					c.H = append(c.H, Stmt{S: s, K: "begin"}, Stmt{S: s, K: "delall", T: t}, Stmt{S: s, K: lib.Pick(r, []string{"commit", "commit", "rollback"})})
+					add(Stmt{S: s, K: "begin"}, Stmt{S: s, K: "delall", T: t}, Stmt{S: s, K: "read", T: (t + 1) % nTables}, g.end(s))
 				default:
-					c.H = append(c.H, Stmt{S: s, K: "begin"}, Stmt{S: s, K: "read", T: 1 - t}, Stmt{S: s, K: "trunc", T: t}, Stmt{S: s, K: "commit"})
+					add(Stmt{S: s, K: "begin"}, Stmt{S: s, K: "read", T: (t + 1) % nTables}, Stmt{S: s, K: "trunc", T: t}, Stmt{S: s, K: "commit"})
 				}
+			case 5:
+				// a READ ONLY transaction, then a write of the same session: the mode must be gone
+				add(Stmt{S: s, K: "beginro"})
+				for j, n := 0, r.Range(1, 4); j < n; j++ {
+					add(g.rw(s))
+				}
+				if r.Chance(1, 5) {
+					add(g.ddl(s, true))
+				}
+				add(g.end(s))
+				if r.Chance(1, 2) {
+					add(g.write(s))
+				} else {
+					add(Stmt{S: s, K: "begin", A: int64(r.Intn(3))}, g.write(s), g.end(s))
+				}
+			case 6:
+				// DDL inside an explicit transaction: commits the pending work; the final ROLLBACK must not undo it
+				add(Stmt{S: s, K: "begin", A: int64(r.Intn(3))})
+				for j, n := 0, r.Range(1, 3); j < n; j++ {
+					add(g.rw(s))
+				}
+				add(g.ddl(s, true))
+				if r.Chance(1, 4) {
+					// statements between the implicit commit and the end of the block (known finding: they are not auto-committed)
+					for j, n := 0, r.Range(1, 2); j < n; j++ {
+						add(g.rw(s))
+					}
+				}
+				add(Stmt{S: s, K: lib.Pick(r, []string{"commit", "rollback", "rollback"})})
 			default:
-				c.H = append(c.H, Stmt{S: s, K: "begin", A: int64(r.Intn(2))})
+				add(Stmt{S: s, K: "begin", A: int64(r.Intn(3))})
 				for j, n := 0, r.Range(0, 4); j < n; j++ {
-					c.H = append(c.H, genRW(r, s))
+					add(g.rw(s))
 				}
 				if r.Chance(1, 8) {
-					c.H = append(c.H, Stmt{S: s, K: "bad"})
+					add(Stmt{S: s, K: "bad"})
 				}
-				c.H = append(c.H, Stmt{S: s, K: lib.Pick(r, []string{"commit", "commit", "rollback"})})
+				add(g.end(s))
 			}
 		}
 		return c
@@ -290,24 +509,31 @@ func gen(r *lib.RNG) caseT {
 		s := r.Range(1, ns)
 		x := r.Intn(100)
 		switch {
-		case open[s] && x < 60, !open[s] && x < 45:
-			c.H = append(c.H, genRW(r, s))
+		case open[s] && x < 58, !open[s] && x < 43:
+			add(g.rw(s))
+		case x < 68 && !open[s], x < 61:
+			add(Stmt{S: s, K: "begin", A: int64(r.Intn(3))})
+			open[s] = true
 		case x < 72 && !open[s], x < 64:
-			c.H = append(c.H, Stmt{S: s, K: "begin", A: int64(r.Intn(2))})
+			add(Stmt{S: s, K: "beginro"})
 			open[s] = true
 		case x < 82:
-			c.H = append(c.H, Stmt{S: s, K: "commit"})
+			add(Stmt{S: s, K: "commit"})
 			open[s] = false
-		case x < 90:
-			c.H = append(c.H, Stmt{S: s, K: "rollback"})
+		case x < 88:
+			add(Stmt{S: s, K: "rollback"})
 			open[s] = false
-		case x < 94:
-			c.H = append(c.H, Stmt{S: s, K: "setac", A: int64(r.Intn(2))})
-		case x < 96:
-			c.H = append(c.H, Stmt{S: s, K: "trunc", T: r.Intn(nTables)}, Stmt{S: s, K: "commit"})
-			open[s] = false
+		case x < 92:
+			add(Stmt{S: s, K: "setac", A: int64(r.Intn(2))})
+		case x < 97:
+			// DDL; mostly followed at once by the end of the transaction
+			add(g.ddl(s, false))
+			if r.Chance(3, 4) {
+				add(g.end(s))
+				open[s] = false
+			}
 		default:
-			c.H = append(c.H, Stmt{S: s, K: "bad"})
+			add(Stmt{S: s, K: lib.Pick(r, []string{"bad", "badddl"})})
 		}
 	}
 	return c
@@ -331,14 +557,18 @@ func (o obsT) coq() string {
 }
 
 type sessRef struct {
-	ac, explicit bool
+	ac, explicit, ro bool
+	// an implicit-commit DDL statement ended this session's explicit transaction and no COMMIT / ROLLBACK / START
+	// TRANSACTION followed yet: by the SQL rules the session is back to its autocommit mode, the engine still treats it as
+	// inside the explicit transaction (known finding); failures at this session's statements carry that signature
+	divergent bool
 	// private view of the open transaction, per touched table: the CANDIDATES still consistent with what the session has
 	// observed - each is some committed version of the table since the transaction began, plus the session's own changes
 	// (which committed version a transaction reads is not specified; that it is a committed one is)
 	priv      map[int][][]KV
 	written   map[int]bool
-	ambiguous map[int]bool     // another session's commit changed the table after this transaction first touched it
-	versions  map[int][][]KV   // committed versions of every table since this transaction began
+	ambiguous map[int]bool   // another session's commit changed the table after this transaction first touched it
+	versions  map[int][][]KV // committed versions of every table since this transaction began
 	started   bool
 }
 
@@ -356,6 +586,17 @@ func (sr *sessRef) start(committed [][]KV) {
 	}
 }
 
+func (sr *sessRef) ensure(t int) {
+	if _, ok := sr.priv[t]; !ok {
+		sr.priv[t] = [][]KV{}
+		for _, v := range sr.versions[t] {
+			sr.priv[t] = append(sr.priv[t], cloneKVs(v))
+		}
+	}
+}
+
+func (sr *sessRef) single(t int) bool { return !sr.ambiguous[t] && len(sr.priv[t]) == 1 }
+
 func inCands(c [][]KV, d []KV) bool {
 	for _, x := range c {
 		if eqKVs(x, d) {
@@ -364,6 +605,8 @@ func inCands(c [][]KV, d []KV) bool {
 	}
 	return false
 }
+
+const sigImplicit = "implicit-commit-keeps-explicit-transaction-flag"
 
 func run(c *lib.Ctx, cs caseT) {
 	e := eng.New("db")
@@ -383,7 +626,21 @@ func run(c *lib.Ctx, cs caseT) {
 	}
 	type failT struct{ sig, what string }
 	var fails []failT
-	fail := func(sig, what string) { fails = append(fails, failT{sig, what}) }
+	masked := false // the statement being checked belongs to a session in the known divergent state
+	fail := func(sig, what string) {
+		if masked && sig != "panic" {
+			sig = sigImplicit
+		}
+		fails = append(fails, failT{sig, what})
+	}
+	refs := map[int]*sessRef{}
+	ref := func(s int) *sessRef {
+		if refs[s] == nil {
+			refs[s] = &sessRef{ac: true}
+			refs[s].endTx()
+		}
+		return refs[s]
+	}
 
 	exec := func(q Stmt) obsT {
 		r := get(q.S).Query(q.sql())
@@ -393,12 +650,18 @@ func run(c *lib.Ctx, cs caseT) {
 		}
 		if r.Err != nil {
 			k := eng.ErrKind(r.Err)
-			if !(q.K == "ins" && k == "dup-key") && !(q.K == "bad" && k == "not-found") {
+			switch {
+			case (q.K == "ins" || q.K == "inssel") && k == "dup-key":
+			case (q.K == "bad" || q.K == "badddl") && k == "not-found":
+			case q.K == "sp" && strings.Contains(r.Err.Error(), "savepoints are not supported"):
+			case q.isDML() && k == "read-only":
+				// whether the rejection was due is decided by the reference below
+			default:
 				fail("unexpected-error/"+q.K, fmt.Sprintf("session %d: %s failed: %v", q.S, q.sql(), r.Err))
 			}
 			return obsT{Kind: "err"}
 		}
-		if q.K == "read" {
+		if q.K == "read" || q.K == "joinread" {
 			o := obsT{Kind: "rows", Rows: []KV{}}
 			for _, row := range r.Rows {
 				var kv KV
@@ -429,39 +692,69 @@ func run(c *lib.Ctx, cs caseT) {
 			committed[t] = cloneKVs(cs.Init[t])
 		}
 	}
-	refs := map[int]*sessRef{}
-	ref := func(s int) *sessRef {
-		if refs[s] == nil {
-			refs[s] = &sessRef{ac: true}
-			refs[s].endTx()
-		}
-		return refs[s]
-	}
 	nCommitPoints, nTxWrites := 0, 0
 	for i, q := range cs.H {
 		sr := ref(q.S)
+		masked = sr.divergent
 		inTx := sr.explicit || !sr.ac
-		// classification by the specification: does this statement end a transaction by committing it?
-		commitPoint := false
-		switch q.K {
-		case "begin", "commit", "trunc":
-			commitPoint = true
-		case "setac":
-			commitPoint = !sr.explicit && q.A != 0
-		case "rollback":
-		default:
-			commitPoint = !inTx
-		}
 		sr.start(committed)
 		o := exec(q)
 		full, obs = append(full, q), append(obs, o)
+		// classification by the specification: does this statement end a transaction by committing it?
+		commitPoint := false
+		switch {
+		case q.K == "begin", q.K == "beginro", q.K == "commit":
+			commitPoint = true
+		case q.isDDL():
+			// a DDL statement that was refused did not commit anything
+			commitPoint = o.Kind == "ok"
+		case q.K == "setac":
+			commitPoint = !sr.explicit && q.A != 0
+		case q.K == "rollback":
+		default:
+			commitPoint = !inTx
+		}
+		rejectRO := sr.ro && q.isDML()
 		// reference: the statement's own effect on the private view
-		if q.K == "read" || q.isWrite() {
-			if _, ok := sr.priv[q.T]; !ok {
-				for _, v := range sr.versions[q.T] {
-					sr.priv[q.T] = append(sr.priv[q.T], cloneKVs(v))
+		switch {
+		case q.K == "sp":
+			if o.Kind != "err" {
+				fail("savepoint-accepted", fmt.Sprintf("step %d session %d: %s succeeded on a backend without savepoints", i, q.S, q.sql()))
+			}
+		case rejectRO:
+			if o.Kind != "err" {
+				fail("write-in-read-only-transaction", fmt.Sprintf("step %d session %d: %s was accepted inside a READ ONLY transaction", i, q.S, q.sql()))
+			}
+		case q.isMulti():
+			sr.ensure(q.T)
+			sr.ensure(q.U)
+			if sr.single(q.T) && sr.single(q.U) {
+				rows, na, nb, okRef := applyMultiRef(q, sr.priv[q.T][0], sr.priv[q.U][0])
+				switch {
+				case q.K == "joinread":
+					if o.Kind != "rows" || !eqKVs(o.Rows, rows) {
+						fail("read-differs-from-own-view", fmt.Sprintf("step %d session %d: %s returned %v, expected %v", i, q.S, q.sql(), o.Rows, rows))
+					}
+				case okRef != (o.Kind == "ok"):
+					fail("write-outcome-differs", fmt.Sprintf("step %d session %d: %s gave %s on %v / %v", i, q.S, q.sql(), o.Kind, sr.priv[q.T], sr.priv[q.U]))
+				default:
+					sr.priv[q.T][0], sr.priv[q.U][0] = na, nb
+				}
+			} else {
+				// more than one committed version could have been read: no claim about these tables in this transaction
+				sr.ambiguous[q.T], sr.ambiguous[q.U] = true, true
+			}
+			if q.K != "joinread" {
+				sr.written[q.T] = true
+				if q.K != "inssel" {
+					sr.written[q.U] = true
+				}
+				if inTx {
+					nTxWrites++
 				}
 			}
+		case q.K == "read" || q.isWrite():
+			sr.ensure(q.T)
 			if !sr.ambiguous[q.T] {
 				var keep [][]KV
 				if q.K == "read" {
@@ -534,19 +827,27 @@ func run(c *lib.Ctx, cs caseT) {
 		}
 		committed = after
 		// mode transitions by the specification
-		switch q.K {
-		case "begin":
+		switch {
+		case q.K == "begin", q.K == "beginro":
 			sr.endTx()
-			sr.explicit = true
+			sr.explicit, sr.ro, sr.divergent = true, q.K == "beginro", false
 			sr.start(committed)
-		case "commit", "rollback":
+		case q.K == "commit", q.K == "rollback":
 			sr.endTx()
-			sr.explicit = false
-		case "setac":
+			sr.explicit, sr.ro, sr.divergent = false, false, false
+		case q.K == "setac":
 			if commitPoint {
 				sr.endTx()
 			}
 			sr.ac = q.A != 0
+		case q.isDDL() && commitPoint:
+			// the implicit commit ends the transaction, explicit or not, together with its READ ONLY mode
+			sr.endTx()
+			if sr.explicit {
+				sr.divergent = true
+				c.Count("ddl-ends-explicit-transaction")
+			}
+			sr.explicit, sr.ro = false, false
 		default:
 			if commitPoint {
 				sr.endTx()
@@ -557,20 +858,36 @@ func run(c *lib.Ctx, cs caseT) {
 		}
 		if cs.Serial {
 			for s2, r2 := range refs {
-				if len(r2.ambiguous) > 0 {
+				if len(r2.ambiguous) > 0 && !r2.divergent && !masked {
 					fail("driver-bug", fmt.Sprintf("serial history became ambiguous for session %d", s2))
 				}
 			}
 		}
 	}
+	masked = false
 
 	items := make([]string, len(full))
-	for i := range full {
-		items[i] = fmt.Sprintf("Ev %d (%s) (%s)", full[i].S, full[i].coq(), obs[i].coq())
+	last := make([][]KV, nTables) // the observer's previous read of each table (initially: the initial contents)
+	for t := range last {
+		last[t] = []KV{}
+		if t < len(cs.Init) {
+			last[t] = cs.Init[t]
+		}
 	}
-	tabs := []string{"[]", "[]"}
-	for t := range cs.Init {
-		if t < 2 {
+	for i := range full {
+		o := obs[i].coq()
+		if full[i].S == 0 && full[i].K == "read" && obs[i].Kind == "rows" {
+			if eqKVs(obs[i].Rows, last[full[i].T]) {
+				o = "OSame"
+			}
+			last[full[i].T] = obs[i].Rows
+		}
+		items[i] = fmt.Sprintf("Ev %d (%s) (%s)", full[i].S, full[i].coq(), o)
+	}
+	tabs := make([]string, nTables)
+	for t := range tabs {
+		tabs[t] = "[]"
+		if t < len(cs.Init) {
 			tabs[t] = coqKVs(cs.Init[t])
 		}
 	}
@@ -591,7 +908,7 @@ func run(c *lib.Ctx, cs caseT) {
 	if nTxWrites > 0 {
 		c.Count("has-write-inside-open-transaction")
 	}
-	id := c.Case(fmt.Sprintf("Case %s %s %s", tabs[0], tabs[1], lib.CoqList(items)), cs, key)
+	id := c.Case(fmt.Sprintf("Case %s %s", lib.CoqList(tabs), lib.CoqList(items)), cs, key)
 	c.PredChecked()
 	seen := map[string]bool{}
 	for _, f := range fails {
@@ -607,10 +924,11 @@ func main() {
 		c.Header = "From Coq Require Import List NArith ZArith.\nImport ListNotations.\nFrom GMS Require Import Store.C17Txn Corr.C17.\nOpen Scope N_scope."
 		c.CaseType = "C17.case"
 		c.MismatchFn = "C17.mismatches"
-		c.SetRule("2 tables (k INT PRIMARY KEY, v INT) with 0-6 initial rows, 2-3 sessions + an observer session on one engine; " +
-			"histories of 5-30 statements (single/multi-row INSERT with duplicate keys, UPDATE, DELETE, SELECT, BEGIN/START TRANSACTION, " +
-			"COMMIT, ROLLBACK, SET autocommit, a statement failing in analysis), 40% built from non-overlapping transaction blocks, " +
-			"60% arbitrary interleavings; the observer reads both tables after every statement. " +
+		c.SetRule("3 tables (k INT PRIMARY KEY, v INT) with 0-6 initial rows, 2-3 sessions + an observer session on one engine; " +
+			"histories of 5-30 statements (single/multi-row INSERT with duplicate keys, UPDATE, DELETE, unfiltered DELETE, TRUNCATE, SELECT, join SELECT, " +
+			"UPDATE ... JOIN, INSERT ... SELECT, two-table DELETE, BEGIN / START TRANSACTION [READ WRITE | READ ONLY], COMMIT, ROLLBACK, SET autocommit, " +
+			"SAVEPOINT / ROLLBACK TO / RELEASE, CREATE TABLE / DROP TABLE / CREATE INDEX / ALTER TABLE with their implicit commit, statements failing in analysis), " +
+			"40% built from non-overlapping transaction blocks, 60% arbitrary interleavings; the observer reads every table after every statement. " +
 			"Non-trivial = at least one write inside an open (explicit or autocommit-off) transaction; distinct = distinct cases.")
 		if c.ReplayFile != "" {
 			var cs caseT
@@ -620,35 +938,77 @@ func main() {
 		}
 		corpus := []caseT{
 			// rollback restores, commit publishes
-			{Init: [][]KV{{{1, 10}, {2, 20}}, {}}, Serial: true, H: []Stmt{
+			{Init: [][]KV{{{1, 10}, {2, 20}}, {}, {}}, Serial: true, H: []Stmt{
 				{S: 1, K: "begin"}, {S: 1, K: "ins", T: 0, KVs: []KV{{3, 30}}}, {S: 1, K: "read", T: 0}, {S: 1, K: "rollback"}, {S: 1, K: "read", T: 0},
 				{S: 2, K: "begin"}, {S: 2, K: "updall", T: 0, A: 5}, {S: 2, K: "ins", T: 1, KVs: []KV{{1, 1}}}, {S: 2, K: "commit"}, {S: 1, K: "read", T: 0}}},
 			// overlapping transactions (outside the property's final-state quantifier, compared with the model only):
 			// a transaction that only READ t0 republishes its snapshot when it commits
-			{Init: [][]KV{{{1, 10}, {2, 20}}, {}}, H: []Stmt{
+			{Init: [][]KV{{{1, 10}, {2, 20}}, {}, {}}, H: []Stmt{
 				{S: 1, K: "begin"}, {S: 1, K: "read", T: 0}, {S: 2, K: "ins", T: 0, KVs: []KV{{4, 40}}}, {S: 1, K: "commit"}, {S: 2, K: "read", T: 0}}},
 			// same through the implicit commit of BEGIN and through SET autocommit = 1
-			{Init: [][]KV{{{1, 10}}, {}}, H: []Stmt{
+			{Init: [][]KV{{{1, 10}}, {}, {}}, H: []Stmt{
 				{S: 1, K: "begin"}, {S: 1, K: "read", T: 0}, {S: 2, K: "delkey", T: 0, A: 1}, {S: 1, K: "begin"}, {S: 1, K: "rollback"}}},
-			{Init: [][]KV{{{1, 10}}, {}}, H: []Stmt{
+			{Init: [][]KV{{{1, 10}}, {}, {}}, H: []Stmt{
 				{S: 1, K: "setac", A: 0}, {S: 1, K: "read", T: 0}, {S: 2, K: "updall", T: 0, A: 1}, {S: 1, K: "setac", A: 1}}},
 			// autocommit off, a write, then an explicit BEGIN with no COMMIT in between: BEGIN commits the pending work and
 			// the later ROLLBACK must not discard it
-			{Init: [][]KV{{{1, 10}}, {}}, Serial: true, H: []Stmt{
+			{Init: [][]KV{{{1, 10}}, {}, {}}, Serial: true, H: []Stmt{
 				{S: 1, K: "setac", A: 0}, {S: 1, K: "ins", T: 0, KVs: []KV{{6, 60}}}, {S: 1, K: "begin", A: 1}, {S: 1, K: "ins", T: 0, KVs: []KV{{7, 70}}},
 				{S: 1, K: "rollback"}, {S: 1, K: "read", T: 0}, {S: 1, K: "setac", A: 1}, {S: 2, K: "read", T: 0}}},
 			// a transaction whose only write is an unfiltered DELETE (planned as a truncate) / TRUNCATE: must become visible
-			{Init: [][]KV{{{1, 10}, {2, 20}}, {{1, 1}}}, Serial: true, H: []Stmt{
+			{Init: [][]KV{{{1, 10}, {2, 20}}, {{1, 1}}, {}}, Serial: true, H: []Stmt{
 				{S: 1, K: "begin"}, {S: 1, K: "delall", T: 0}, {S: 1, K: "read", T: 0}, {S: 1, K: "commit"}, {S: 2, K: "read", T: 0},
 				{S: 2, K: "delall", T: 1}, {S: 1, K: "read", T: 1}, {S: 1, K: "ins", T: 0, KVs: []KV{{3, 30}}},
 				{S: 1, K: "begin"}, {S: 1, K: "delall", T: 0}, {S: 1, K: "rollback"}, {S: 2, K: "read", T: 0},
 				{S: 2, K: "trunc", T: 0}, {S: 1, K: "read", T: 0}, {S: 1, K: "ins", T: 1, KVs: []KV{{4, 4}}},
 				{S: 1, K: "begin"}, {S: 1, K: "trunc", T: 1}, {S: 1, K: "commit"}, {S: 2, K: "read", T: 1}}},
 			// autocommit off; failed statements; error inside a transaction
-			{Init: [][]KV{{{1, 10}}, {{1, 1}}}, Serial: true, H: []Stmt{
+			{Init: [][]KV{{{1, 10}}, {{1, 1}}, {}}, Serial: true, H: []Stmt{
 				{S: 1, K: "setac", A: 0}, {S: 1, K: "ins", T: 0, KVs: []KV{{5, 50}}}, {S: 1, K: "setac", A: 1},
 				{S: 1, K: "ins", T: 0, KVs: []KV{{6, 60}, {1, 11}}}, {S: 2, K: "begin"}, {S: 2, K: "ins", T: 0, KVs: []KV{{7, 70}}},
 				{S: 2, K: "ins", T: 0, KVs: []KV{{8, 80}, {1, 11}}}, {S: 2, K: "bad"}, {S: 2, K: "begin"}, {S: 2, K: "rollback"}}},
+			// DDL with an implicit commit as the last statement of an explicit transaction: the earlier write is published and
+			// the ROLLBACK does not undo it (CREATE TABLE, CREATE INDEX on the written table, ALTER TABLE, DROP TABLE)
+			{Init: [][]KV{{{1, 10}}, {{1, 1}}, {}}, Serial: true, H: []Stmt{
+				{S: 1, K: "begin"}, {S: 1, K: "ins", T: 0, KVs: []KV{{2, 20}}}, {S: 1, K: "createx", A: 1}, {S: 1, K: "rollback"}, {S: 2, K: "read", T: 0},
+				{S: 2, K: "begin", A: 1}, {S: 2, K: "updall", T: 1, A: 3}, {S: 2, K: "cridx", T: 1, A: 2}, {S: 2, K: "rollback"}, {S: 1, K: "read", T: 1},
+				{S: 1, K: "begin"}, {S: 1, K: "delkey", T: 0, A: 1}, {S: 1, K: "altcom", T: 2, A: 3}, {S: 1, K: "commit"},
+				{S: 2, K: "setac", A: 0}, {S: 2, K: "ins", T: 2, KVs: []KV{{5, 50}}}, {S: 2, K: "dropx", A: 1}, {S: 2, K: "rollback"}, {S: 2, K: "setac", A: 1},
+				{S: 1, K: "read", T: 2}, {S: 1, K: "badddl"}}},
+			// KNOWN FINDING: a statement after the implicit commit, autocommit on: the engine keeps the explicit-transaction
+			// flag, does not commit the INSERT on its own, and the ROLLBACK discards it
+			{Init: [][]KV{{{1, 10}}, {}, {}}, Serial: true, H: []Stmt{
+				{S: 1, K: "begin"}, {S: 1, K: "ins", T: 0, KVs: []KV{{2, 20}}}, {S: 1, K: "createx", A: 1}, {S: 1, K: "ins", T: 0, KVs: []KV{{3, 30}}},
+				{S: 1, K: "rollback"}, {S: 2, K: "read", T: 0}}},
+			{Init: [][]KV{{{1, 10}}, {}, {}}, Serial: true, H: []Stmt{
+				{S: 1, K: "begin"}, {S: 1, K: "trunc", T: 1}, {S: 1, K: "ins", T: 0, KVs: []KV{{3, 30}}}, {S: 1, K: "read", T: 0}, {S: 1, K: "commit"}}},
+			// READ ONLY transactions: DML rejected, reads served, the mode ends with COMMIT / ROLLBACK / a new START TRANSACTION
+			{Init: [][]KV{{{1, 10}}, {{1, 1}}, {}}, Serial: true, H: []Stmt{
+				{S: 1, K: "beginro"}, {S: 1, K: "ins", T: 0, KVs: []KV{{2, 20}}}, {S: 1, K: "delall", T: 1}, {S: 1, K: "read", T: 0},
+				{S: 1, K: "updjoin", T: 0, U: 1, A: 1, B: 2}, {S: 1, K: "joinread", T: 0, U: 1}, {S: 1, K: "commit"},
+				{S: 1, K: "ins", T: 0, KVs: []KV{{2, 20}}}, {S: 1, K: "beginro"}, {S: 1, K: "rollback"}, {S: 1, K: "begin"},
+				{S: 1, K: "ins", T: 0, KVs: []KV{{3, 30}}}, {S: 1, K: "commit"}, {S: 1, K: "beginro"}, {S: 1, K: "begin", A: 2},
+				{S: 1, K: "delkey", T: 0, A: 1}, {S: 1, K: "commit"}, {S: 2, K: "read", T: 0}}},
+			// READ ONLY overlapping: the rejected DML registered its table, the commit republishes the snapshot
+			{Init: [][]KV{{{1, 10}}, {{1, 1}}, {}}, H: []Stmt{
+				{S: 1, K: "beginro"}, {S: 1, K: "delall", T: 0}, {S: 2, K: "ins", T: 1, KVs: []KV{{9, 9}}}, {S: 2, K: "ins", T: 0, KVs: []KV{{9, 9}}},
+				{S: 1, K: "commit"}, {S: 2, K: "read", T: 0}, {S: 2, K: "read", T: 1}}},
+			// savepoint statements fail and change nothing
+			{Init: [][]KV{{{1, 10}}, {}, {}}, Serial: true, H: []Stmt{
+				{S: 1, K: "sp", A: 0}, {S: 1, K: "begin"}, {S: 1, K: "ins", T: 0, KVs: []KV{{2, 20}}}, {S: 1, K: "sp", A: 0}, {S: 1, K: "read", T: 0},
+				{S: 1, K: "sp", A: 1}, {S: 1, K: "sp", A: 3}, {S: 1, K: "read", T: 0}, {S: 1, K: "sp", A: 2}, {S: 1, K: "commit"}, {S: 2, K: "read", T: 0},
+				{S: 2, K: "setac", A: 0}, {S: 2, K: "delkey", T: 0, A: 1}, {S: 2, K: "sp", A: 0}, {S: 2, K: "rollback"}, {S: 2, K: "setac", A: 1}}},
+			// statements over two tables, three tables in play
+			{Init: [][]KV{{{1, 10}, {2, 20}, {3, 30}}, {{1, 1}, {3, 3}, {4, 4}}, {}}, Serial: true, H: []Stmt{
+				{S: 1, K: "begin"}, {S: 1, K: "joinread", T: 0, U: 1}, {S: 1, K: "updjoin", T: 0, U: 1, A: 100, B: 200}, {S: 1, K: "inssel", T: 2, U: 0, A: 10},
+				{S: 1, K: "inssel", T: 2, U: 1, A: 12}, {S: 1, K: "deljoin", T: 0, U: 1, A: 3}, {S: 1, K: "read", T: 2}, {S: 1, K: "commit"},
+				{S: 2, K: "updjoin", T: 1, U: 0, A: 1, B: 2}, {S: 2, K: "inssel", T: 2, U: 0, A: 10}, {S: 2, K: "joinread", T: 2, U: 1},
+				{S: 2, K: "begin"}, {S: 2, K: "deljoin", T: 1, U: 0, A: 1}, {S: 2, K: "rollback"}, {S: 1, K: "joinread", T: 1, U: 0}}},
+			// overlapping: an unfiltered DELETE registers every table in the session; a later read of another table inside the
+			// own transaction is the snapshot taken then, and the commit republishes it (model comparison only)
+			{Init: [][]KV{{{1, 10}}, {{1, 1}}, {{1, 5}}}, H: []Stmt{
+				{S: 1, K: "begin"}, {S: 1, K: "delall", T: 0}, {S: 2, K: "ins", T: 1, KVs: []KV{{6, 6}}}, {S: 1, K: "read", T: 1}, {S: 1, K: "commit"},
+				{S: 2, K: "read", T: 1}}},
 		}
 		for _, cs := range corpus {
 			run(c, cs)
